@@ -10,6 +10,7 @@ fixup("PrimitiveOrConstructedType", "self.tag = self.tag if self.tag is not None
 invariant("PrimitiveOrConstructedType", self.tag is not None, len(self.constructed_tag) == len(self.tag),
           self.constructed_tag != self.tag)
 fields("ArrayType", element_type=Obj("Type"))
+fields("StringType", ENCODING=Str)
 fields("Choice", has_extension_marker=Bool, tag_to_member=Map('bytes', Obj("Type")), name_to_member=Map('str', Obj("Type")))
 fields("Enumerated", has_extension_marker=Bool, value_to_data=Map('int', Val), data_to_value=Map('val', Int))
 fields("ExplicitTag", inner=Obj("Type"))
@@ -106,6 +107,7 @@ def _(self, data: ByteArray, offset: Nat, length: Opt(Int)):
 @contract("PrimitiveOrConstructedType.decode_constructed_contents", props=["C08", "C16", "C04"], for_class="*")
 def _(self, data: ByteArray, offset: Nat, length: Opt(Int)):
     refines("StandardDecodeMixin.decode_content")
+    use_abstract("decode_constructed_segments")
     loop(0, invariant=[offset >= old(offset), offset <= len(data)], decreases=len(data) - offset)
 
 
@@ -293,3 +295,24 @@ def _(self, data: ByteArray, offset: Nat, length: Opt(Int)):
     # C07: with a definite length the whole announced contents are consumed, whatever trailing additions this
     # version does not know (unknown TLVs are skipped via end_offset)
     ensures(implies(length is not None, result[1] == offset + length or result[1] >= offset + length))
+
+
+@contract("OctetString.decode_primitive_contents", props=["C04", "C01", "C08"])
+def _(self, data: ByteArray, offset: Nat, length: Nat) -> Bytes:
+    ensures(result == bytes(data[offset:offset + length]))
+
+
+@contract("BitString.decode_primitive_contents", props=["C04", "C01", "C08"])
+def _(self, data: ByteArray, offset: Nat, length: Nat):
+    # X.690 8.6.2: initial octet = number of unused bits of the last octet
+    requires(offset + length <= len(data))
+    raises_iff(IndexError, offset >= len(data))
+    ensures(result[1] == 8 * (length - 1) - data[offset] and result[0] == data[offset + 1:offset + length])
+
+
+@contract("StringType.decode_constructed_segments", props=["C04", "C01"], for_class="any", bounded="segment lists of length 0..3")
+def _(self, segments: ListOf(Bytes, 3)) -> Str:
+    # X.690 8.21.6: the value is the concatenation of the segments' octets, decoded as a whole (a character may be
+    # split across segments).  BOUNDED in the number of segments (0..3), unbounded in their contents.
+    raises(UnicodeDecodeError)
+    ensures(result == text_decode(concat_all(segments), self.ENCODING))
